@@ -442,6 +442,16 @@ class Transaction:
                 # Known-pre-commit-point failure - safe to clean up written files
                 self._rollback()
                 raise e
+            except BaseException:
+                # KeyboardInterrupt / SystemExit can arrive anywhere - including
+                # after the commit point (hint fsync, lock release, marker
+                # cleanup). The outcome is unknown here, so treat it like an
+                # ambiguous commit: keep every written file (a durable snapshot
+                # may reference them) and deactivate the transaction, so that a
+                # context-manager exit or a caller's rollback() cannot delete
+                # committed data. True orphans are garbage-collected later.
+                self._rollback(delete_files=False)
+                raise
 
         # This line should not be reached if max_retries > 0, but added for completeness
         self._rollback()
